@@ -645,6 +645,20 @@ example : (match validate (F := Rat) (.scaled (1/10) (3/10) 10 (1/10) 0) (.float
     | _ => false) = true := by
   decide +kernel
 
+/-- limits OFF the grid (`ScaledInteger(0.1, 0, 0.34)`: declared interval `[0, 0.3]`, the grid values of the limits): the
+clamping band is measured from the interval's ends - 0.39 (outside by less than one step) is clamped to 0.3, 0.4 (a whole
+step outside) is refused although `0.4 < 0.34 + 0.1`; the specification says the same (`DenotesScaled`) -/
+example : (match validate (F := Rat) (.scaled (1/10) 0 (34/100) (1/10) 0) (.float (39/100)) none with
+    | .ok r => PVal.same r (.float (3/10))
+    | _ => false) = true ∧
+    (match validate (F := Rat) (.scaled (1/10) 0 (34/100) (1/10) 0) (.float (4/10)) none with
+    | .error .range => true
+    | _ => false) = true ∧
+    DenotesScaled (1/10 : Rat) 0 (34/100) (.float (39/100)) (3/10) ∧
+    ¬ DenotesScaled (1/10 : Rat) 0 (34/100) (.float (4/10)) (3/10) ∧
+    ¬ DenotesScaled (1/10 : Rat) 0 (34/100) (.float (4/10)) (4/10) := by
+  refine ⟨?_, ?_, ?_, ?_, ?_⟩ <;> decide +kernel
+
 example : ∀ v prev r, (∀ p, prev = some p → Shaped (.scaled (1/10 : Rat) (3/10) 10 (1/10) 0) p) →
     validate (F := Rat) (.scaled (1/10) (3/10) 10 (1/10) 0) v prev = .ok r →
     validate (F := Rat) (.scaled (1/10) (3/10) 10 (1/10) 0) r none = .ok r ∧
